@@ -255,7 +255,31 @@ class Normalizer:
         """Reference functions that already had a nested helper on the reference tree (their closures are left alone)."""
         return {q.split(".<locals>.")[0] for q in self.known if ".<locals>." in q}
 
+    def _canonical_pool_calls(self):
+        """`pool.apply_async(func=f, args=a, kwds=k)` is `pool.apply_async(f, a, k)`: the three leading parameters of
+        Pool.apply / Pool.apply_async are written positionally (callbacks stay keywords)."""
+        order = ("func", "args", "kwds")
+        for f in self.prog.functions.values():
+            for n in ast.walk(f.node):
+                if isinstance(n, ast.Call) and isinstance(n.func, ast.Attribute) and n.func.attr in ("apply_async", "apply") and n.keywords \
+                        and not any(isinstance(a, ast.Starred) for a in n.args) and all(k.arg is not None for k in n.keywords):
+                    kw = {k.arg: k for k in n.keywords}
+                    pos = list(n.args)
+                    while len(pos) < 3:
+                        name = order[len(pos)]
+                        if name in kw:
+                            pos.append(kw.pop(name).value)
+                        elif name == "args" and "kwds" in kw:
+                            pos.append(ast.copy_location(ast.Tuple(elts=[], ctx=ast.Load()), n))
+                        else:
+                            break
+                    if len(pos) != len(n.args):
+                        n.args = pos
+                        n.keywords = [k for k in n.keywords if k.arg in kw]
+                        self.log.append(f"{f.qualname}:{n.lineno} <- positional apply_async arguments")
+
     def run(self):
+        self._canonical_pool_calls()
         if not self.known:
             return self
         # stand-ins for renamed reference helpers are fixed first: they stay functions
